@@ -295,6 +295,15 @@ func ruleC18RegionSuffixResolvedOnEveryPath(c *Ctx) {
 		}
 		return strings.HasSuffix(trimAddr(accessPath(cond)), ".regionSuffixEnabled")
 	}
+	// … or a helper of the package that evaluates the test on every path through it
+	testsInHelper := func(i ssa.Instruction) bool {
+		h := staticCallee(i)
+		if h == nil || h.Blocks == nil || h.Pkg == nil || h.Pkg != f.Pkg || h == f {
+			return false
+		}
+		ok, _ := mustPass(h.Blocks[0], 0, isEnabledTest, nil)
+		return ok
+	}
 	n := 0
 	for _, r := range returnsOf(f) {
 		if len(r.Results) != 2 || isNilValue(returnedValue(r, 0)) {
@@ -303,7 +312,7 @@ func ruleC18RegionSuffixResolvedOnEveryPath(c *Ctx) {
 		n++
 		c.CallSites++
 		found, tr := pathSearchAt(f.Blocks[0], 0, func(i ssa.Instruction) pathAction {
-			if isEnabledTest(i) {
+			if isEnabledTest(i) || testsInHelper(i) {
 				return pathStop
 			}
 			if i == ssa.Instruction(r) {
@@ -322,11 +331,20 @@ func ruleC18RegionSuffixResolvedOnEveryPath(c *Ctx) {
 	}
 	// and the enabled edge stores the suffix
 	stored := false
+	isSuffixStore := func(i ssa.Instruction) bool {
+		st, ok := i.(*ssa.Store)
+		if !ok {
+			return false
+		}
+		_, fld, isF := fieldAccess(st.Addr)
+		return isF && fld == "regionSuffix"
+	}
 	allInstrs(f, func(i ssa.Instruction) {
-		if st, ok := i.(*ssa.Store); ok {
-			if _, fld, isF := fieldAccess(st.Addr); isF && fld == "regionSuffix" {
-				stored = true
-			}
+		if isSuffixStore(i) {
+			stored = true
+		}
+		if h := staticCallee(i); h != nil && h.Blocks != nil && h.Pkg == f.Pkg && containsInstr(h, isSuffixStore) {
+			stored = true
 		}
 	})
 	c.check(stored, "metastore.NewDynamoDB/suffix-store", u.pos(f.Pos()), "regionSuffix assigned in the constructor", "NewDynamoDB no longer assigns regionSuffix")
@@ -344,7 +362,11 @@ func ruleC19FreshStreamer(c *Ctx) {
 		return
 	}
 	n := 0
-	for _, g := range f.AnonFuncs {
+	// every function of the server package that returns a *streamer (the closure in NewAppEncryption, or a factory helper it calls)
+	for _, g := range u.RepoFuncs {
+		if g.Pkg == nil || g.Pkg.Pkg.Path() != pkgServer {
+			continue
+		}
 		res := g.Signature.Results()
 		if res.Len() != 1 {
 			continue
@@ -360,10 +382,19 @@ func ruleC19FreshStreamer(c *Ctx) {
 			v := resolve(returnedValue(r, 0))
 			a, isA := v.(*ssa.Alloc)
 			fresh := isA && a.Parent() == g
-			c.check(fresh, "server.NewAppEncryption/streamer-factory", u.ipos(r), "a streamer allocated per call", "the streamer factory hands every stream the same streamer ("+describeOperand(v)+"): streams share one handler slot — a second stream's encrypt before its own get-session is served with the first stream's session, its get-session is refused as \"already initialized\", and one stream's end closes the session under the others")
+			if call, isCall := v.(*ssa.Call); isCall {
+				// a forwarder: the result of calling its own func-typed receiver/parameter, or of another server function that is judged itself
+				if _, isParam := strip(call.Call.Value).(*ssa.Parameter); isParam && !call.Call.IsInvoke() {
+					fresh = true
+				}
+				if h := call.Call.StaticCallee(); h != nil && h.Pkg == g.Pkg {
+					fresh = true
+				}
+			}
+			c.check(fresh, trimPkgDirs(shortName(g))+"/streamer-factory", u.ipos(r), "a streamer allocated per call", "the streamer factory hands every stream the same streamer ("+describeOperand(v)+"): streams share one handler slot — a second stream's encrypt before its own get-session is served with the first stream's session, its get-session is refused as \"already initialized\", and one stream's end closes the session under the others")
 		}
 	}
 	if n == 0 {
-		c.bad("server.NewAppEncryption/streamer-factory", u.pos(f.Pos()), "no closure returning *streamer found in NewAppEncryption")
+		c.bad("server.NewAppEncryption/streamer-factory", u.pos(f.Pos()), "no function returning *streamer found in the server package")
 	}
 }
